@@ -324,7 +324,10 @@ def _hd_model(cx, rep, port, p, mod, fd):
         ex = AX.Explorer(p, mod, on_call=on_call, on_attr=on_attr, max_choices=1)
         try:
             runs, cut = ex.explore(fd, [None if ih is None else list(ih), None if jh is None else list(jh), list(infos)])
-        except Undecided:
+        except Undecided as e_:
+            import os
+            if os.environ.get('RBQL_VERIF_DEBUG'):
+                print('HD-TABLE model gave up:', e_)
             return False
         if len(runs) != 1:
             return False
